@@ -247,11 +247,13 @@ class StaticRoute:
                 fh, st = _open_file(self._fallback_filename)
                 file_path = self._fallback_filename
 
-        last_modified = datetime.fromtimestamp(st.st_mtime, timezone.utc)
-        # NOTE(vytas): Strip the microsecond part because that is not reflected
+        # NOTE(vytas): Strip the sub-second part because that is not reflected
         #   in HTTP date, and when the client passes a previous value via
         #   If-Modified-Since, it will look as if our copy is ostensibly newer.
-        last_modified = last_modified.replace(microsecond=0)
+        # NOTE: Truncate before converting; fromtimestamp() rounds a float to
+        #   the nearest microsecond, which would carry an mtime such as
+        #   x.9999996 over to the next second.
+        last_modified = datetime.fromtimestamp(int(st.st_mtime), timezone.utc)
         resp.last_modified = last_modified
         if req.if_modified_since is not None and last_modified <= req.if_modified_since:
             resp.status = falcon.HTTP_304
